@@ -1,2 +1,16 @@
 import Amoco.Props.C12
-#print axioms Amoco.C12.placeholder
+open Amoco.C12
+#print axioms width_construct
+#print axioms width_oper
+#print axioms width_neg
+#print axioms width_not
+#print axioms width_simplify
+#print axioms width_eval
+#print axioms width_slice
+#print axioms width_compose
+#print axioms width_extend
+#print axioms width_tst
+#print axioms compWF_of_WF
+#print axioms compWF_setitem
+#print axioms compWF_restruct
+#print axioms compWF_sound
